@@ -364,6 +364,11 @@ def one_site(out, eng, f, poll_bb, oid):
             confirmed, rep = native.scenario(out, "watchdog_sweep", {"interval": 2})
             if not confirmed and "opcode::" in oid:
                 confirmed, rep = native.scenario(out, "copy_loop_polls", {"iters": 16, "interval": 4})
+            if not confirmed and "tc::" in oid:
+                for k in (2, 3, 5):
+                    confirmed, rep = native.scenario(out, "tc_phase_polls", {"interval": k})
+                    if confirmed:
+                        break
         if confirmed:
             out.obligation(oid, "mirsmt", "violated", dt, witness=True, note=bad, replay=rep)
             out.violation(C.Violation(key="poll-discipline:%s" % oid, what="%s: %s" % (oid, bad), replay={"engine": "mirsmt", "obligation": oid, "native": rep}))
